@@ -445,11 +445,20 @@ def register(spec):     # noqa: F811
 
 
 def register_static(spec):
-    """C17: the snapshot is immutable (deductive); that it mirrors the map is checked
-    by the bounded native stand-in (get_static_map builds classes dynamically with
-    __slots__: outside the verifier's subset, see DESIGN 9)."""
+    """C17.  Deductive: the snapshot is immutable, and its three access methods
+    (__getattribute__, __getitem__, get) read the snapshot's attribute table the way the
+    statement says - a handle name yields the handle's loaded resource (through the contract of
+    Handle.__call__, so at most one load and the identical object), any other name the
+    sub-snapshot, get the stored object itself without loading, an absent name AttributeError.
+    That get_static_map() FILLS the attribute table as a mirror of the map (it builds a class
+    with __slots__ per map, recursively) is outside the verifier's subset and is checked by the
+    bounded native stand-in only (DESIGN 9); the link between the two is the representation
+    invariant snap_ok, assumed of every snapshot (listed as an assumption)."""
     SMap = TSort('SMap')
-    spec.klass(M + 'StaticResourceMap', 'SMap', fields={'_handle_names': TSet(Str)})
+    # the attribute table of a snapshot (slots and __dict__ together): handles and sub-snapshots
+    spec.klass(M + 'StaticResourceMap', 'SMap',
+               fields={'_handle_names': TSet(Str), '_hattrs': TDict(Str, Handle),
+                       '_mattrs': TDict(Str, SMap)})
     spec.sort_name('SMap')
     C = spec.contract
     q = M + 'StaticResourceMap.'
@@ -459,6 +468,86 @@ def register_static(spec):
           ensures={'never-returns-normally': 'False'},
           raises={'ValueError': {'always-rejected': 'True',
                                  'changes-nothing': 'unchanged_except(self, "")'}})
+
+    # object.__getattribute__(snapshot, name): a read of the attribute table
+    def raw_getattribute(X, cv):
+        def fn(X, args, kw, node):
+            obj, name = deref(args[0]), deref(args[1])
+            if not (isinstance(obj, ZV) and obj.t.sort().name() == 'SMap'):
+                X.unsupported('object.__getattribute__ on %r' % (obj,), node)
+            X.null_check(obj, node)
+            if isinstance(name, Con) and name.v == '_handle_names':
+                return X.read_field(obj.t, '_handle_names')
+            nt = T._coerce(name, Str.sort)
+            ha = deref(X.read_field(obj.t, '_hattrs'))
+            ma = deref(X.read_field(obj.t, '_mattrs'))
+            if X.branch(ha.dom[nt]):
+                return ha.select(nt)
+            if X.branch(ma.dom[nt]):
+                return ma.select(nt)
+            X.raise_('AttributeError', name, node=node)
+        return Builtin('object.__getattribute__', fn)
+    spec.class_attr_load[('object', '__getattribute__')] = raw_getattribute
+    spec.define('snap_names_ok', lambda X, s_: ZV(
+        deref(X.read_field(deref(s_).t, '_handle_names')).arr ==
+        deref(X.read_field(deref(s_).t, '_hattrs')).dom))
+    spec.note_assumption('C17: every snapshot satisfies snap_ok (its _handle_names are exactly the names bound '
+                         'to handles, a name is bound to a handle or to a sub-snapshot, never both, and bound '
+                         'objects are not None) - established by get_static_map, which is checked by the bounded '
+                         'native oracle only; names that collide with members of StaticResourceMap '
+                         '(_handle_names, get, ...) are excluded, as in the statement')
+    SNAP_OK = ['self != None', 'snap_names_ok(self)',
+               'all(not (k in self._hattrs and k in self._mattrs) for k in Str)',
+               'all(implies(k in self._hattrs, self._hattrs[k] != None) for k in Str)',
+               'all(implies(k in self._mattrs, self._mattrs[k] != None) for k in Str)']
+    def loaded(pn):
+        return ('let(h=self._hattrs[%s], body=h != None and h._cached and result == h._cache and '
+                'implies(old(h._cached), result == old(h._cache) and all(cnt(c) == old(cnt(c)) for c in Call)) '
+                'and implies(not old(h._cached), cnt(call_load(h)) == old(cnt(call_load(h))) + 1 and '
+                'all(implies(c != call_load(h), cnt(c) == old(cnt(c))) for c in Call)))' % pn)
+    QUIET = ('all(cnt(c) == old(cnt(c)) for c in Call) and '
+             'all(hh._cache == old(hh._cache) and hh._cached == old(hh._cached) for hh in Handle)')
+    for fn, pn in (('__getattribute__', 'name'), ('__getitem__', 'key')):
+        C(q + fn + '#handle', params={'self': SMap, pn: Str}, props=['C17'], returns=Res,
+          requires=SNAP_OK + ['%s != None and %s in self._handle_names' % (pn, pn)],
+          modifies=['Handle._cache', 'Handle._cached', 'ghost:log', 'ghost:cnt'],
+          ensures={'a-handle-name-yields-the-loaded-resource': loaded(pn),
+                   'other-handles-untouched': 'all(implies(hh != self._hattrs[%s], hh._cache == old(hh._cache) '
+                                              'and hh._cached == old(hh._cached)) for hh in Handle)' % pn},
+          raises={'$OtherException': {'from-load-only': 'not old(self._hattrs[%s]._cached)' % pn}})
+        C(q + fn + '#map', params={'self': SMap, pn: Str}, props=['C17'], returns=SMap,
+          requires=SNAP_OK + ['%s != None and not (%s in self._handle_names)' % (pn, pn)],
+          ensures={'any-other-name-yields-the-sub-snapshot': '%s in self._mattrs and result == self._mattrs[%s]'
+                                                             % (pn, pn),
+                   'loads-nothing': QUIET},
+          raises={'AttributeError': {'exactly-for-absent-names': 'not (%s in self._mattrs)' % pn,
+                                     'loads-nothing': QUIET}})
+    C(q + 'get#handle', params=dict(self=SMap, key=Str), props=['C17'], returns=Handle,
+      requires=SNAP_OK + ['key != None and key in self._handle_names'],
+      ensures={'the-handle-object-itself': 'result == self._hattrs[key]', 'loads-nothing': QUIET})
+    C(q + 'get#map', params=dict(self=SMap, key=Str), props=['C17'], returns=SMap,
+      requires=SNAP_OK + ['key != None and not (key in self._handle_names)'],
+      ensures={'the-sub-snapshot': 'key in self._mattrs and result == self._mattrs[key]',
+               'loads-nothing': QUIET},
+      raises={'AttributeError': {'exactly-for-absent-names': 'not (key in self._mattrs)',
+                                 'loads-nothing': QUIET}})
+
+    # getattr(snapshot, key) in __getitem__ runs the class's __getattribute__: by its contract
+    prev_getattr = getattr(spec, 'getattr_hook', None)
+
+    def getattr_hook(X, obj, name, default, node):
+        if isinstance(obj, ZV) and obj.t.sort().name() == 'SMap' and default is None:
+            from pyvc.exec import Closure
+            m, fnode, qq = X.repo.find_method(M + 'StaticResourceMap', '__getattribute__')
+            hn = deref(X.read_field(obj.t, '_handle_names'))
+            nt = T._coerce(name, Str.sort)
+            variant = '#handle' if X.branch(hn.arr[nt]) else '#map'
+            ct = spec.contracts[q + '__getattribute__' + variant]
+            return spec.call_by_contract(X, ct, Closure(fnode, None, m, cls=qq), [obj, name], {}, node)
+        if prev_getattr is not None:
+            return prev_getattr(X, obj, name, default, node)
+        X.unsupported('getattr with symbolic name', node)
+    spec.getattr_hook = getattr_hook
 
 
 _reg_tree2 = register
